@@ -87,7 +87,11 @@ class YamlInterface(FileInterface):
 
     def save(self, filename: str, data: dict) -> None:   # pragma: no cover
         """Save config to yaml file."""
+        # use a fresh dumper for every save. ruamel keeps its output stream and emitter in the
+        # YAML() instance when dump() raises (unrepresentable value, I/O error). a shared instance
+        # would then fail all later saves with "I/O operation on closed file".
+        dumper = yaml.YAML(typ='safe')
+        dumper.default_flow_style = False
+        dumper.line_break = ''
         with open(filename, 'w', encoding='utf8') as output_file:
-            _yaml.default_flow_style = False
-            _yaml.line_break = ''
-            _yaml.dump(data, output_file)
+            dumper.dump(data, output_file)
